@@ -144,3 +144,88 @@ Proof.
   split; [repeat constructor; cbn; eauto|].
   split; [vm_compute; reflexivity|]. split; vm_compute; reflexivity.
 Qed.
+
+(* ---- source tie ------------------------------------------------------------------------------------
+   PV.Gen.C15Src is regenerated from /repo/src/pydrobert/torch/training.py on every run
+   (harness/py2coq/translate.py; blocks of update_for_epoch chosen by statement markers, and the whole
+   functions continue_training / get_last_epoch); PV.MiniPy.Interp is the semantics of the translated
+   subset; SrcRun.ext15 gives meaning to self.get_info (= cache_hist.get), self.get_last_epoch (the
+   translated method) and 10 ** reduce_lr_log10_epsilon (= rlr_eps); SrcRun.enc_* encode the model's
+   parameters, rows, cache and optimizer as MiniPy values.  The theorems below are about those regenerated
+   terms: interpreting the source text computes what Model.v computes, for all inputs. *)
+From PV Require MiniPy.Syntax MiniPy.Interp Gen.C15Src C15.SrcRun C15.TieLib C15.TieRlr C15.Tie.
+
+(* update_for_epoch with every control decision taken by the interpreted source (SrcRun.src_update: ufe_epoch,
+   ufe_cont, ufe_info, [Model.check_kwargs/collect], ufe_lr_default, ufe_control) is Model.update; hypotheses:
+   the cache holds at least the dummy epoch 0, and num_epochs is not 0 (TrainingStateParams bounds it to >= 1) *)
+Theorem c15_source_update_is_model : forall rnd p decl dflt st train va kw,
+  cache st <> [] -> SrcRun.num_ok p ->
+  SrcRun.src_update rnd p decl dflt st train va kw = Some (update rnd p decl dflt st train va kw).
+Proof. exact Tie.src_update_tie. Qed.
+Print Assumptions c15_source_update_is_model.
+
+(* whole runs (update_for_epoch + continue_training interpreted from the source, restarts by the model) *)
+Theorem c15_source_run_is_model : forall rnd rd p decl dflt steps, SrcRun.num_ok p ->
+  SrcRun.src_run rnd rd p decl dflt (init_state p dflt) steps
+  = Some (run rnd rd p decl dflt (init_state p dflt) steps).
+Proof. exact Tie.src_run_init_tie. Qed.
+Print Assumptions c15_source_run_is_model.
+
+(* the early-stopping statements (es_epoch = ..., es_info = self.get_info(es_epoch), the countdown `if`)
+   compute Model.es_step; a missing reference row is a TypeError *)
+Theorem c15_source_es_is_model : forall p c os dflt r u epoch va train cont,
+  SrcRun.es_expected p c os dflt r u epoch va train cont
+    (Interp.exec SrcRun.ext15 C15Src.ufe_es
+       (SrcRun.st_of (SrcRun.vars_ctl (SrcRun.enc_self p c) (SrcRun.enc_opt os dflt) (SrcRun.enc_row_u r u)
+                        epoch va train cont))).
+Proof. exact TieLib.es_tie. Qed.
+Print Assumptions c15_source_es_is_model.
+
+(* the learning-rate statements compute Model.rlr_step, including the write of the new rate into every
+   parameter group of the optimizer (any number of groups, any previous rates) *)
+Theorem c15_source_rlr_is_model : forall p c os dflt r u epoch va train cont x y lr, r_lr r = Some lr ->
+  SrcRun.rlr_expected p c os dflt r u epoch va cont lr
+    (Interp.exec SrcRun.ext15 C15Src.ufe_rlr
+       (SrcRun.st_of (SrcRun.vars_es (SrcRun.enc_self p c) (SrcRun.enc_opt os dflt) (SrcRun.enc_row_u r u)
+                        epoch va train cont x y))).
+Proof. exact TieRlr.rlr_tie. Qed.
+Print Assumptions c15_source_rlr_is_model.
+
+(* the whole control block (es_epoch = ... through info["train_met"] = train_met) computes the new row,
+   the early-stopping part of `cont` and the optimizer rates of Model.update *)
+Theorem c15_source_control_is_model : forall p c os dflt r u epoch va train cont lr, r_lr r = Some lr ->
+  SrcRun.ctl_expected p c os dflt r u epoch va train cont lr
+    (Interp.exec SrcRun.ext15 C15Src.ufe_control
+       (SrcRun.st_of (SrcRun.vars_ctl (SrcRun.enc_self p c) (SrcRun.enc_opt os dflt) (SrcRun.enc_row_u r u)
+                        epoch va train cont))).
+Proof. exact Tie.control_tie. Qed.
+Print Assumptions c15_source_control_is_model.
+
+(* epoch = get_last_epoch() + 1; the budget part of `cont`; info = dict(self.get_info(epoch - 1, None)) *)
+Theorem c15_source_head_is_model : forall p c optim train va, c <> [] -> SrcRun.num_ok p ->
+  SrcRun.head_expected p c
+    (Interp.run SrcRun.ext15 SrcRun.ufe_head (SrcRun.vars_entry (SrcRun.enc_self p c) optim train va)).
+Proof. exact TieLib.head_tie. Qed.
+Print Assumptions c15_source_head_is_model.
+
+(* continue_training() *)
+Theorem c15_source_continue_training_is_model : forall p st, cache st <> [] -> SrcRun.num_ok p ->
+  SrcRun.src_continue p st = Some (continue_training p st).
+Proof. exact TieLib.continue_tie. Qed.
+Print Assumptions c15_source_continue_training_is_model.
+
+(* get_last_epoch() *)
+Theorem c15_source_get_last_epoch_is_model : forall ext p c, c <> [] ->
+  Interp.run ext C15Src.tsc_get_last_epoch (SrcRun.self_vars (SrcRun.enc_self p c))
+  = Interp.Ok (Syntax.VInt (last_epoch c)) (SrcRun.st_of (SrcRun.self_vars (SrcRun.enc_self p c))).
+Proof. exact TieLib.last_epoch_tie. Qed.
+Print Assumptions c15_source_get_last_epoch_is_model.
+
+(* composed with c15_trace_follows_rules: a statement purely about the translated source *)
+Theorem c15_source_trace_follows_rules : forall rnd rd p decl dflt steps,
+  wf p -> SrcRun.num_ok p -> plain decl steps -> quiet_before_last p (s_init p dflt) (map s_val steps) = true ->
+  exists os stf,
+    SrcRun.src_run rnd rd p decl dflt (init_state p dflt) steps = Some (os, stf) /\
+    map obs_core os = map rule_obs (fst (s_run p (s_init p dflt) (map s_val steps))).
+Proof. exact Tie.source_trace_follows_rules. Qed.
+Print Assumptions c15_source_trace_follows_rules.
